@@ -932,7 +932,10 @@ Proof.
   repeat split; auto.
   - unfold initial_code. destruct (split_char SEMI t) as [|it l]; [discriminate|].
     cbn [map] in Hg. inversion Hg; subst. inversion Hne; subst.
-    cbn [forallb] in Hd. apply andb_true_iff in Hd as [Hd1 _].
+    cbn [forallb] in Hd. apply andb_true_iff in Hd as [Hd1 _]. cbv zeta.
+    rewrite (DecProofs.strip_ws_digits it Hd1). change (all_digits it) with (forallb is_digit it) in Hd1. rewrite Hd1.
+    assert (Hn : is_nil it = false) by (destruct it; [contradiction|reflexivity]).
+    rewrite Hn. cbn [negb andb].
     rewrite (parse_int_digits it Hd1) by assumption. rewrite N2Z.id.
     replace (0 <=? Z.of_N (num_of it))%Z with true by (symmetry; apply Z.leb_le; lia). reflexivity.
   - intros ->. cbn in Hp. inversion Hp; subst. cbn in H3. discriminate.
